@@ -314,6 +314,20 @@ class Impl:
                     V.Solid(vmf, op[2], [], 5)     # visgroup_ids=5: the converter raises
                 except TypeError:
                     pass
+        elif name == 'failent':
+            vmf = self._map(op[1])
+            if vmf is not None:
+                try:
+                    V.Entity(vmf, ent_id=op[2], groups=5)      # raises after the id was obtained
+                except TypeError:
+                    pass
+        elif name == 'failside':
+            vmf = self._map(op[1])
+            if vmf is not None:
+                try:
+                    V.Side(vmf, [Vec(), Vec(1, 0, 0), Vec(0, 1, 0)], op[2], disp_power='x')
+                except TypeError:
+                    pass
         else:
             raise ValueError(f'unknown op {name}')
         o = e = s = vmf = ss = ks = kids = None
